@@ -439,6 +439,12 @@ class Engine:
                 v = self.eval_promoted(st, fn, c['promoted'])
                 if v is not None:
                     return v
+            if 'uneval' in c and 'promoted' not in c and self.consts:
+                # a named constant of this crate, when the analysis fixes the constants it is computed from
+                # (e.g. LEN): its (branch-free or constant-branching) body is evaluated; anything symbolic is left as is
+                v = self.eval_const(st, fn, c['uneval'])
+                if v is not None:
+                    return v
             if 'uneval' in c:
                 return ('k', c['uneval'] + '<' + ','.join(ty_str(a) for a in c.get('uneval_args', []) if a.get('k') != 'region') + '>' + ('#p%d' % c['promoted'] if 'promoted' in c else ''))
             return ('k', c.get('s', '?'))
@@ -470,6 +476,51 @@ class Engine:
             if s_['k'] == 'assign':
                 self.write(st, pf, frame, s_['place'], self.rvalue(st, pf, frame, s_['rv']))
         return st.env.get((frame, 0))
+
+    def eval_const(self, st, fn, path):
+        """Concrete value ('c', n) of the crate constant printed as `path`, or None."""
+        if not hasattr(self, '_const_by_path'):
+            self._const_by_path = {}
+            for cd in self.prog.consts.values():
+                self._const_by_path.setdefault(cd['path'], []).append(cd)
+            self._const_busy = set()
+        cds = self._const_by_path.get(path) or []
+        if len(cds) != 1 or path in self._const_busy or not cds[0].get('mir'):
+            return None
+        cd = cds[0]
+        self._const_busy.add(path)
+        try:
+            cf = Fn(dict(fn.d, mir=cd['mir'], dp=cd['dp'], promoted=cd.get('promoted') or []), self.prog)
+            self.frames += 1
+            frame = self.frames
+            b = 0
+            for _ in range(64):
+                blk = cf.body.blocks[b]
+                for s_ in blk['stmts']:
+                    if s_['k'] == 'assign':
+                        v_ = self.rvalue(st, cf, frame, s_['rv'])
+                        if s_['rv']['k'] == 'binop' and s_['rv']['op'].endswith('WithOverflow') and v_[0] == 'c':
+                            v_ = ('agg', 'tuple', None, 0, (v_, ('c', 0)))      # (value, overflowed): constants of a crate that compiles do not overflow
+                        self.write(st, cf, frame, s_['place'], v_)
+                t = blk['term']
+                if t['k'] == 'return':
+                    v = st.env.get((frame, 0))
+                    return v if isinstance(v, tuple) and v[0] == 'c' and isinstance(v[1], int) else None
+                if t['k'] in ('goto', 'assert'):
+                    b = t['target']
+                    continue
+                if t['k'] == 'switch':
+                    d = self.operand(st, cf, frame, t['discr'])
+                    if d[0] != 'c':
+                        return None
+                    b = t['targets'][t['values'].index(d[1])] if d[1] in t['values'] else t['otherwise']
+                    continue
+                return None
+            return None
+        except Exception:
+            return None
+        finally:
+            self._const_busy.discard(path)
 
     def operand_ty(self, fn, op):
         p = op_place(op)
